@@ -4,6 +4,7 @@ package main
 import (
 	_ "verifh/props/c01"
 	_ "verifh/props/c02"
+	_ "verifh/props/c03"
 	_ "verifh/props/c04"
 	_ "verifh/props/c05"
 	_ "verifh/props/c06"
@@ -14,6 +15,8 @@ import (
 	_ "verifh/props/c12"
 	_ "verifh/props/c13"
 	_ "verifh/props/c14"
+	_ "verifh/props/c16"
+	_ "verifh/props/c18"
 	_ "verifh/props/c19"
 	_ "verifh/props/c20"
 )
